@@ -162,9 +162,7 @@ fn run_history(ops: &[TOp], case: &mut Case, allow_sleep: bool) -> Result<(), Fa
                 for (i, r) in recs.iter().enumerate() {
                     let name_ok = r.name == qname || (sub && super::c13::is_subdomain(&r.name, &qname));
                     let present = got.iter().any(|g| g.name == r.name && g.rdata == r.rdata && g.class == r.class);
-                    let expect: Option<bool> = if !name_ok {
-                        Some(false)
-                    } else {
+                    let by_state: Option<bool> = {
                         match model[i] {
                             None => Some(false),
                             Some(MKind::Auth) => Some(adm_auth),
@@ -187,6 +185,16 @@ fn run_history(ops: &[TOp], case: &mut Case, allow_sleep: bool) -> Result<(), Fa
                                 }
                             }
                         }
+                    };
+                    // Which owner names a query covers is not this statement's business (C13 owns that): a record
+                    // of another owner makes no claim unless it is returned although removed, expired, or of a kind
+                    // the filter excludes.
+                    let expect = if name_ok {
+                        by_state
+                    } else if by_state == Some(false) {
+                        Some(false)
+                    } else {
+                        continue;
                     };
                     claims += 1;
                     // Completeness (must be present) is only asserted where the statement implies it: for the
